@@ -20,7 +20,6 @@ class Reg:
     neg: bool
     k: int                 # decade: 10^(k-1) <= |x| < 10^k
     carry_upto: int = -1   # x rounds up to 10^k in every format with precision <= carry_upto (-1: never)
-    integer: bool = False  # unused hook for integer-valued x
 
 
 @dataclass(frozen=True)
